@@ -137,3 +137,62 @@ def random_cases(n, seed, start_id=1, shells=("bash",), max_leaves=48, **kw):
             if len(out) >= n:
                 break
     return out
+
+
+# ---------------------------------------------------------------------------------------------
+# corpora for execution in bash: prefix-free literal pool, probe commands with fixed output
+BASH_LITS = ["--x", "-y", "foo", "bar", "--opt=", "c", "+z", "k=", ","]
+
+
+def probe_cmds(classes=("p1", "p2", "p5", "p6"), n=4):
+    # every command has its own candidate set (overlapping outputs of different commands are an open region)
+    return ['__probe c%d %s "$@"' % (i + 1, classes[i % len(classes)]) for i in range(min(n, len(classes)))]
+
+
+def annotate_bash(c, probe_classes):
+    """code points for literals, probe identity and output lines for command nodes"""
+    for n in c["ast"]["nodes"]:
+        n["cp"] = [ord(ch) for ch in n["t"]] if n["k"] == "lit" else []
+        n["lines"] = []
+        n["probe"] = ""
+        if n["k"] == "cmd":
+            parts = n["t"].split()
+            if len(parts) >= 3 and parts[0] == "__probe":
+                n["probe"] = parts[1]
+                n["lines"] = [[ord(ch) for ch in l] for l in probe_classes[parts[2]]]
+    return c
+
+
+def bash_random_cases(n, seed, probe_classes, classes=("p1", "p2", "p5", "p6"), start_id=1, depth=4, max_leaves=40, lits=None, ops=None):
+    rnd = random.Random(seed)
+    out = []
+    tries = 0
+    cmds = probe_cmds(classes)
+    global PROBE_CMDS
+    saved = PROBE_CMDS
+    PROBE_CMDS = cmds
+    try:
+        while len(out) < n and tries < n * 60:
+            tries += 1
+            variants, defs = random_grammar(rnd, depth=depth, lits=lits or BASH_LITS, p_descr=0.05, allow_builtin_names=False, ops=ops)
+            # shell-specific command texts must be probes too
+            defs = [(nm, sh, C('__probe c%d%s %s "$@"' % (5 + SHELL_IDX[sh], nm.lower(), SPEC_CLASS[sh])) if sh else body) for (nm, sh, body) in defs]
+            if not clean(variants, defs) or leaves_count(variants, defs) > max_leaves:
+                continue
+            c = gen.case(variants, defs, shell="bash")
+            out.append(annotate_bash(finish(c, start_id + len(out), origin="random"), probe_classes))
+    finally:
+        PROBE_CMDS = saved
+    return out
+
+
+SHELL_IDX = {"bash": 0, "fish": 1, "zsh": 2, "pwsh": 3}
+SPEC_CLASS = {"bash": "p7", "fish": "p8", "zsh": "p8", "pwsh": "p8"}
+
+
+def bash_exhaustive(nmax, probe_classes, start_id=1, limit=None, rnd=None, leaves=None, ops=None, defs=None):
+    leaves = leaves or [L("foo"), L("--x"), L("bar"), R("X"), R("U"), C('__probe c1 p1 "$@"')]
+    defs = [("X", "", ("alt", [L("x1"), L("x2")]))] if defs is None else defs
+    cases, total = exhaustive(nmax, leaves=leaves, ops=ops or ["seq", "alt", "fb", "sub", "opt", "many"], defs=defs,
+                              start_id=start_id, limit=limit, rnd=rnd)
+    return [annotate_bash(c, probe_classes) for c in cases], total
